@@ -30,6 +30,22 @@ CHECKS = {
             "that was sent. Search, not proof: larger streams are sampled.",
             "Trusts the recording layers of the harness and Python's struct module as the length reference.",
             "5/C05"),
+    "C15": ("exploration",
+            "enumerated lengths/tamper positions + Hypothesis-generated inputs; round trip, tamper rejection and two-way "
+            "differential against an independent HKDF/AES-CBC/HMAC implementation",
+            "All plaintext lengths 0..64 for the four kinds and every single-byte corruption, truncation, key-byte change and "
+            "kind mix-up of short ciphertexts are enumerated; larger inputs are generated. The layout reference is written "
+            "with stdlib hmac and cryptography's AES and must reproduce the real WhatsApp sample before any run.",
+            "Trusts cryptography's AES-CBC and stdlib HMAC/SHA-256; WhatsApp compatibility is relative to the pinned real sample.",
+            "5/C15"),
+    "C20": ("exploration",
+            "Hypothesis-generated phone numbers, parameter lists and key pairs against stdlib HMAC / urllib decoding / "
+            "cryptography X25519+AES-GCM as independent oracles",
+            "Token equality with stdlib HMAC-SHA1 over pinned constants, percent-decoding of every generated value with "
+            "urllib, decryption of the ENC blob with the recipient's private key through an unrelated X25519/AES-GCM "
+            "implementation, fresh ephemeral keys, and the token parameter of the three real request classes.",
+            "Token constants are pinned for the pinned WhatsApp version string; urllib/hmac/cryptography are trusted.",
+            "5/C20"),
 }
 
 NOT_APPLICABLE = {
